@@ -73,7 +73,11 @@ ImplAccepts(unit, d, D) ==
   LET es == ES(unit) IN
   IF ~ObjHas(d, "x") THEN "x" \notin Required(unit.schema)
   ELSE LET v == ObjVal(d, "x") IN
-    CASE unit.use \in {"opt", "optdefault"} -> v.t = "null" \/ EnumUnmarshalAccepts(es, v)
+    CASE unit.use = "opt" -> v.t = "null" \/ EnumUnmarshalAccepts(es, v)      \* pointer field: null => nil
+      \* with a default the field is a value: UnmarshalJSON(null) runs (deviation EnumNullDefault);
+      \* in the intended design a null counts as absent and the default applies
+      [] unit.use = "optdefault" -> IF v.t = "null" /\ "EnumNullDefault" \notin D THEN TRUE
+                                    ELSE EnumUnmarshalAccepts(es, v)
       [] unit.use = "req" -> EnumUnmarshalAccepts(es, v)
       [] unit.use = "ref" -> IF "UntypedEnumDefUnvalidated" \in D /\ ~Has(es, "type") THEN TRUE
                              ELSE EnumUnmarshalAccepts(es, v)
